@@ -262,6 +262,29 @@ def check_counter_pairing(prog, r):
                 r.ok("%s: fetch_sub under !peer_still_has_path" % short(prog.name(k)))
             else:
                 r.fail(prog.name(k), "fetch_sub-guard", "fetch_sub is not guarded by the peer_still_has_path test (guards: %s)" % txt[:160], fv.loc(bi))
+    # the "does the peer still have a path here" test must look at the list *after* the removal
+    for m in REMOVERS:
+        k = prog.one(r"rustybgp_table::Table::" + m)
+        for kk in prog.with_closures(k):
+            fv = view(prog, kk)
+            ls = [l for l, nm in fv.local_name.items() if nm == "peer_still_has_path"]
+            if not ls:
+                continue
+            removals = [b for b, t in fv.calls(re.compile(r".*Vec::<T(, A)?>::(retain|retain_mut|remove|swap_remove|drain)$")) if "RibEntry" in t["f"].get("ga", "")]
+            for l in ls:
+                for bi, si, s in fv.defs().get(l, []):
+                    if bi not in fv.live:
+                        continue
+                    # the any()/find() call feeding this definition
+                    srcs = [b for b, t in fv.calls(re.compile(r".*Iterator::(any|find|position)$")) if (b == bi or bi in fv.reach_after(b)) and b in fv.live]
+                    late = [b for b in srcs if removals and not fv.dominated_by_any(b, removals)]
+                    if not removals:
+                        r.unanalysable("%s: peer_still_has_path is computed but no removal from the entry list was found" % short(prog.name(k)), fv.loc(bi))
+                    elif late and len(late) == len(srcs):
+                        r.fail(prog.name(k), "still-has-path-before-removal", "peer_still_has_path is computed (line %d) before the paths are removed from the entry list: it is then always true, so neither "
+                               "`received` nor the prefix-limit counter is ever decremented by this purge" % fv.line(late[0]), fv.loc(late[0]))
+                    else:
+                        r.ok("%s: peer_still_has_path is evaluated on the list after the removal" % short(prog.name(k)))
     # no fetch_sub anywhere else in the table crate
     others = []
     for k in crate_fns(prog, "rustybgp_table"):
